@@ -229,3 +229,38 @@ pub fn linksz(toks: &[&str]) -> Option<String> {
     if ok_d == n && ok_b == n { drop(boss); drop(doer); } else { std::mem::forget(boss); std::mem::forget(doer); }
     Some(format!("toDoer={} toBoss={} of={}", ok_d, ok_b, n))
 }
+
+
+/// `linkburst <key hex32> <timeout_ms> <n> <size>*`: like `linksz`, but the boss end queues *all* its messages at once (a sending
+/// thread that lags behind finds several messages waiting: whatever it does with a backlog - batching, coalescing - is exercised),
+/// the paths of different lengths; then the doer end receives.  Answer: `toDoer=<delivered intact in order> of=<n>`.
+pub fn linkburst(toks: &[&str]) -> Option<String> {
+    let mut t = Toks::new(toks);
+    let key = unhex(t.tok()?)?;
+    if key.len() != 16 { return None; }
+    let timeout = std::time::Duration::from_millis(t.nat()? as u64);
+    let n = t.nat()?; let mut sizes = vec![]; for _ in 0..n { sizes.push(t.nat()?); }
+    if !t.done() { return None; }
+    let (boss_end, doer_end) = pair();
+    let key = *GenericArray::from_slice(&key);
+    let boss: AsyncEncryptedComms<Command, Response> = AsyncEncryptedComms::new(boss_end, key, 0, 1, ("boss", "doer"));
+    let doer: AsyncEncryptedComms<Response, Command> = AsyncEncryptedComms::new(doer_end, key, 1, 0, ("doer", "boss"));
+    let name = |i: usize| -> String { "f".repeat(1 + (i * 7) % 40) };
+    for (i, &sz) in sizes.iter().enumerate() {
+        let _ = boss.sender.send(Command::CreateOrUpdateFile { path: rrp(&name(i)), data: pattern(sz, i), set_modified_time: None, more_to_follow: i % 2 == 0 });
+    }
+    let start = std::time::Instant::now();
+    let mut ok = 0usize;
+    while ok < n {
+        match doer.receiver.try_recv() {
+            Ok(Command::CreateOrUpdateFile { path, data, more_to_follow, .. }) => {
+                if data == pattern(sizes[ok], ok) && more_to_follow == (ok % 2 == 0) && rrp_str(&path) == name(ok) { ok += 1; } else { break; }
+            }
+            Ok(_) => break,
+            Err(crossbeam::channel::TryRecvError::Disconnected) => break,
+            Err(_) => { if start.elapsed() > timeout { break; } std::thread::sleep(std::time::Duration::from_micros(200)); }
+        }
+    }
+    if ok == n { drop(boss); drop(doer); } else { std::mem::forget(boss); std::mem::forget(doer); }
+    Some(format!("toDoer={} of={}", ok, n))
+}
